@@ -226,7 +226,7 @@ pub fn run(cat: &Catalog, cfg: &Config, stats: &mut Stats, run_seed: u64) -> Vec
         tail_desc = format!("torn record of {} bytes", tail.len());
     } else if !fault_free && kinds.contains(&FaultKind::Stale) {
         run.stats.count("fault_configured.F-stale");
-        match fl.below(3) {
+        match if records.is_empty() { 0 } else { fl.below(3) } {
             0 => tail = faults::garbage(&mut fl, 64),
             1 => {
                 let r = fl.pick(&records);
